@@ -2,6 +2,7 @@ import CstructModel.Sexp
 import CstructModel.Expr
 import CstructModel.Proto
 import CstructModel.Hexdump
+import CstructModel.Dumpstruct
 import CstructModel.Enum
 import CstructModel.Pointer
 import CstructModel.Union
@@ -258,6 +259,27 @@ def handle (s : Sexp) : Sexp :=
       .list (.atom "ok" :: (Hexdump.hexdump data p o).map fun l =>
         .list [.atom (toString l.offset), .str (render l.values), .str (render l.chars)])
     | _, _, _ => .list [.atom "bad-args"]
+  -- (dumpstruct "cls" ((name anon size|none (int v)|(text "s")|(list "s")) ...) hexdata offset color)
+  | .list [.atom "dumpstruct", .str cls, .list fs, d, off, col] =>
+    let fields : Option (List Dumpstruct.DField) := fs.mapM fun (p : Sexp) => match p with
+      | Sexp.list [Sexp.str n, an, sz, Sexp.list [Sexp.atom k, v]] =>
+        let value : Option Dumpstruct.DVal := match k, v with
+          | "int", v => v.int?.map .int
+          | "text", Sexp.str s => some (.text s)
+          | "list", Sexp.str s => some (.list s)
+          | _, _ => none
+        value.map fun v => { name := n, anonymous := an.nat? != some 0, size := sz.nat?, value := v }
+      | _ => none
+    match fields, d.hexBytes?, off.nat?, col.nat? with
+    | some fields, some data, some o, some c =>
+      let render (segs : List Hexdump.Seg) : String := String.join (segs.map fun s => match s with
+        | .text t => t
+        | .code "NORMAL" => "\x1b[1;0m"
+        | .code c => c)
+      let r := Dumpstruct.dumpstruct cls fields data o (c != 0)
+      .list [.atom "ok", .list (r.hex.map fun l => .list [.atom (toString l.offset), .str (render l.values), .str (render l.chars)]),
+             .str r.title, .list (r.listing.map fun l => .str (render l))]
+    | _, _, _, _ => .list [.atom "bad-args"]
   -- (pack v size|none le|be) (unpack hex size|none le|be sign) (swap v size)
   | .list [.atom "pack", v, sz, e] =>
     match v.int?, e with
